@@ -22,6 +22,9 @@ Inductive op :=
 | ONext (i : nat) (exhausts : bool)    (* next(it_i); [exhausts] = the generator finishes during this resumption *)
 | OClose (i : nat)             (* it_i.close() *)
 | ODrop (i : nat)              (* the last reference to it_i is dropped (finalisation = close) *)
+| ONextP (i : nat) (exhausts : bool)   (* next(it_i) for a query whose condition calls a user predicate that opens a symbolic block of
+                                  its own, builds a query there and evaluates it COMPLETELY (a nested evaluate()) before the
+                                  resumption continues *)
 | OThe (raises : bool).        (* a the(...) query evaluated here; [raises]: it fails (no / several solutions) and the exception is
                                   handled on the spot, inside whatever blocks are open *)
 
@@ -60,6 +63,31 @@ Definition finish (s : state) (i : nat) (st : istate) : state :=
   | _ => set_iter s i IDone
   end.
 
+(* the nested block + nested evaluation of ONextP: they run while the mode is what the resumption made it, inside a block that saves
+   that mode on entry and writes it back on exit (symbolic_mode); the nested evaluate() brackets itself in the same way *)
+Definition nested (s : state) : state :=
+  let during := if an_mode_off_around_next then None else cur s in
+  let inside := {| cur := mode_of BQuery during; frames := {| f_block := BQuery; f_prev := during |} :: frames s;
+                   estack := estack s; iters := iters s |} in
+  let after := leave inside in
+  (* the resumption's own `with symbolic_mode(None)` (if any) writes back the mode it found *)
+  if an_mode_off_around_next then set_cur after (if block_restores_entry_mode then cur s else cur after) else after.
+
+Definition step_next (s : state) (i : nat) (exhausts : bool) : state :=
+  match aget (iters s) i with
+  | Some IFresh =>
+      (* first resumption: enters the body; with the yield INSIDE the mode block the block is entered once and held *)
+      if an_yield_inside_mode_block then
+        let s1 := set_cur s None in
+        if exhausts then finish s1 i (ISusp (cur s) true) else set_iter s1 i (ISusp (cur s) true)
+      else
+        (* mode switched off around this resumption only (if at all) and restored before control returns *)
+        if exhausts then set_iter s i IDone else set_iter s i (ISusp (cur s) false)
+  | Some (ISusp saved holds) =>
+      if exhausts then finish s i (ISusp saved holds) else s
+  | _ => s
+  end.
+
 Definition step (s : state) (o : op) : state :=
   match o with
   | OEnter b =>
@@ -67,20 +95,8 @@ Definition step (s : state) (o : op) : state :=
          estack := if pushes b then S (estack s) else estack s; iters := iters s |}
   | OLeave | ORaise => leave s
   | OCreate i => set_iter s i IFresh
-  | ONext i exhausts =>
-      match aget (iters s) i with
-      | Some IFresh =>
-          (* first resumption: enters the body; with the yield INSIDE the mode block the block is entered once and held *)
-          if an_yield_inside_mode_block then
-            let s1 := set_cur s None in
-            if exhausts then finish s1 i (ISusp (cur s) true) else set_iter s1 i (ISusp (cur s) true)
-          else
-            (* mode switched off around this resumption only (if at all) and restored before control returns *)
-            if exhausts then set_iter s i IDone else set_iter s i (ISusp (cur s) false)
-      | Some (ISusp saved holds) =>
-          if exhausts then finish s i (ISusp saved holds) else s
-      | _ => s
-      end
+  | ONext i exhausts => step_next s i exhausts
+  | ONextP i exhausts => step_next (nested s) i exhausts
   | OClose i | ODrop i =>
       match aget (iters s) i with
       | Some (ISusp saved holds) => finish s i (ISusp saved holds)
